@@ -289,6 +289,11 @@ fn emit_expression_ctx(
             } else if let Some(path) = context.and_then(|ctx| ctx.qualified_choice_labels.get(name))
             {
                 out.push(json!({"CNT?": path}))
+            } else if name.contains('.')
+                && context.is_some_and(|ctx| ctx.resolve_list_item(name).is_some())
+            {
+                // `List.item`: an item named together with its list is a value
+                out.push(json!({"VAR?": name}))
             } else if name.contains('.') {
                 out.push(json!({"CNT?": name}))
             } else if let (Some(s), Some(ctx)) = (scope, context)
